@@ -30,7 +30,7 @@ def n_cases(tier):
 def gen_case(rng, tier, idx):
     if idx % 4 == 3:
         return {"kind": "api", "steps": rng.randint(5, 40)}
-    n = rng.choice([0, 1, 2, 3, 4, 5, 6, 8, 12])
+    n = rng.choice([0, 1, 2, 3, 4, 5, 6, 8, 12, 31, 32, 33, 64, 65])
     trig = [rng.choice(["level", "rise", "fall"]) for _ in range(n)]
     # add order: a shuffled order with repeats interleaved
     order = list(range(n))
@@ -83,7 +83,8 @@ def run_case(case):
             mon.cycle = c
             for key, p in (("i", 0.5), ("clear", 0.5), ("enable", 0.3)):
                 if rng.random() < p:
-                    burst[key] = rng.choice([bits(rng, n), bits(rng, n) & bits(rng, n), mask, 0])
+                    burst[key] = rng.choice([bits(rng, n), bits(rng, n) & bits(rng, n), mask, 0,
+                                             (1 << rng.randrange(n)) if n else 0])
             i_vec, clear, enable = burst["i"], burst["clear"], burst["enable"]
             for k in range(n):
                 ctx.set(by_bit[k].i, (i_vec >> k) & 1)
